@@ -33,6 +33,14 @@ def degenerate(o):
     return any(degenerate(e) for e in o["v"]) if o["k"] in ("list", "dotted", "vec", "array") else False
 
 
+def explains(f, items, probe=None):
+    """An open finding explains a difference of a session when one of its alternatives (the items it needs, the probes it names) applies."""
+    for a in [f] + f.get("alts", []):
+        if "needs" in a and set(a["needs"]) <= set(items) and (probe is None or probe in a.get("probes", [])):
+            return True
+    return False
+
+
 def run(tier, seed):
     rep = common.Report(PROP, tier, seed)
     vdrive = common.build_harness()
@@ -82,21 +90,22 @@ def run(tier, seed):
                       f"load form of {json.dumps(ev['obj'])[:160]} at margin {ev['margin']}: {'/'.join(b['laws'])}: text {json.dumps(ev['text'])[:200]} "
                       f"({ev['st'][:120]}) evaluated to {json.dumps(ev['back'])[:160]}")
     # ---- sessions: snapshot, fresh process, load, snapshot ---------------------------------------------------------------------
-    srows, g3 = gen.bfs(WORLD, "World", "WorldGen.cfg", {"MaxOps": 3 if quick else 4, "EmitFrom": 1}, timeout=3000)
+    srows, g3 = gen.bfs(WORLD, "World", "WorldGen.cfg", {"MaxOps": 2 if quick else 3, "EmitFrom": 1}, timeout=3000)
     drows, g4 = gen.bfs(WORLD, "World", "WorldDirected.cfg", {}, timeout=600)      # groups of items that belong together, and pairs of groups
     srows += drows
     shards = 4
     gens = [g1, g2, g3, g4]
 
     def walk(k):
-        return gen.sim(WORLD, "World", "WorldSim.cfg", {"MaxOps": 19, "EmitFrom": 6}, num=(40 if quick else 400) // shards, depth=20, seed=seed * 100 + k, timeout=3000)
+        return gen.sim(WORLD, "World", "WorldSim.cfg", {"MaxOps": 19, "EmitFrom": 6}, num=(24 if quick else 240) // shards, depth=20, seed=seed * 100 + k, timeout=3000)
 
     with ThreadPoolExecutor(max_workers=shards) as ex:
         for r2, g in ex.map(walk, range(shards)):
             srows += r2
             gens.append(g)
     seen, sessions = set(), []
-    for r in srows:
+    cap = len(srows) - sum(g["emitted"] for g in gens[4:]) + (500 if quick else 6000)      # the random sessions are capped, the enumerated ones never
+    for r in srows[:cap]:
         k = json.dumps(r["items"])
         if k not in seen:
             seen.add(k)
@@ -136,7 +145,7 @@ def run(tier, seed):
                 for p in b["first"]:
                     left.append(f"in the defining session {p} is {ev['p1'][s['probes'].index(p)]!r}")
                 for p in b["reload"]:
-                    f = next((f for f in findings if p in f.get("probes", []) and set(f.get("needs", [])) <= set(s["items"])), None)
+                    f = next((f for f in findings if explains(f, s["items"], p)), None)
                     if f:
                         hit.setdefault(f["feature"], []).append(b["id"])
                     else:
@@ -149,11 +158,33 @@ def run(tier, seed):
                     else:
                         left.append(f"loading the snapshot failed: {ev['st2'][:200]}")
                 elif not b["same"]:
-                    f = next((f for f in findings if f.get("fixed_point") and set(f.get("needs", [])) <= set(s["items"])), None)
+                    f = next((f for f in findings if f.get("fixed_point") and explains(f, s["items"])), None)
                     if f:
                         hit.setdefault(f["feature"], []).append(b["id"])
                     else:
                         left.append("the snapshot of the reloaded session differs from the first snapshot")
+                # the objects of the session rebuilt from their pretty-printed load forms
+                for t in b.get("lf", []):
+                    where = f"after evaluating the load forms of the session's objects (right margin {t['margins'][0]})"
+                    excused = set()
+                    if t["st"] != "ok":
+                        # a form that cannot be evaluated: explained only by an open finding about that form; the probes that finding
+                        # names are excused, every other probe is still judged
+                        for x in [x for x in t["st"].split(" ;; ") if x]:
+                            f = next((f for f in findings if f.get("lf_error") and any(m in x for m in f["lf_error"]) and set(f.get("needs_any", [])) & set(s["items"])), None)
+                            if f:
+                                hit.setdefault(f["feature"], []).append(b["id"])
+                                excused |= set(f.get("probes", []))
+                            else:
+                                left.append(f"{where}: {x[:300]}")
+                    for p in [p for p in t["probes"] if p not in excused]:
+                        f = next((f for f in findings if f.get("lf_probes") and explains(f, s["items"], p)), None)
+                        if f:
+                            hit.setdefault(f["feature"], []).append(b["id"])
+                        else:
+                            i = s["probes"].index(p)
+                            got = next((x["p"][i] for x in ev["lf"] if x["margins"] == t["margins"]), "?")
+                            left.append(f"{where} {p} is {got!r}, it was {ev['p1'][i]!r}")
                 if left:
                     rep.violation({"property": PROP, "part": "sessions", "session": s["items"], "differences": left, "event": ev},
                                   f"session {s['items']}: " + "; ".join(left)[:600])
@@ -164,10 +195,12 @@ def run(tier, seed):
                     "traces_validated_against_impl": len(objs) + len(sessions), "evaluations": prints + len(sessions) * 2 * len(sessions[0]["probes"]),
                     "distinct_nontrivial": vchecked + len(sessions), "exhaustive": True, "no_load_form": noform,
                     "rule": f"values: {len(objs)} objects of ObjGen (all leaves, hash tables and the structures around them) x right margins 20..120, one event per "
-                            f"distinct text of the pretty-printed load form, judged by LoadForm.tla; sessions: every session of World.tla up to {3 if quick else 4} "
-                            "definitions (one per transition of the graph of defined sets), the directed sessions of World.tla (every group of related items completely, every two groups one after the other) and random sessions of 6..19 definitions out of 30 items (variables, "
+                            f"distinct text of the pretty-printed load form, judged by LoadForm.tla; sessions: every session of World.tla up to {2 if quick else 3} "
+                            "definitions (one per transition of the graph of defined sets), the directed sessions of World.tla (every group of related items completely, every two groups one after the other) and at most {500 if quick else 6000} random sessions of 6..19 definitions out of 36 items (variables, "
                             "parameter changed later, constant, hash table, functions incl. a redefinition and optional / key parameters, macro, flavors with "
-                            "a method, inheritance and an instance, flavors whose names sort against their inheritance, an inherited list default, classes with accessors, generic functions with methods and daemons, package with export), each run in a "
-                            "fresh process, snapshot loaded in another fresh process, 34 probes compared and the snapshot fixed point, judged by WorldTrace.tla",
+                            "a method, inheritance and an instance, flavors whose names sort against their inheritance, an inherited list default, classes with and without accessors, generic functions with methods, daemons and an :around method, a lambda as a value, package with export), each run in a "
+                            "fresh process, snapshot loaded in another fresh process, {len(sessions[0]['probes'])} probes compared and the snapshot fixed point; the load form (make-load-form) of every object of the session "
+                            "(values of variables, functions, macro, flavors, instance, classes, generic functions, package and its function: World.tla Objs) pretty-printed under right margins 20 / 28 / 40 / 56 / 80 / 120 and "
+                            "evaluated in a third fresh process per distinct text, same probes compared; judged by WorldTrace.tla",
                     "samples": [objs[0], sessions[-1]["items"]], "gen": gens, "probes": {k: len(v) for k, v in hit.items()}})
     return rep.finish()
